@@ -55,7 +55,9 @@ class Check:
     # ---- finishing
     def finish(self):
         kf = load_known_findings()
-        known = {f["key"]: f for f in kf if f["property"] == self.pid and f["status"] == "known"}
+        # known findings are matched module-agnostically: a function keeps its identity (Type::method) when the file
+        # it lives in is renamed or the type is moved to another module
+        known = {norm_key(f["key"]): f for f in kf if f["property"] == self.pid and f["status"] == "known"}
         failures = [o for o in self.obligations if not o["ok"]]
         # de-duplicate by key (one report per key)
         by_key = {}
@@ -64,8 +66,8 @@ class Check:
         violations = []
         known_hit = []
         for key, objs in sorted(by_key.items()):
-            if key in known:
-                known_hit.append((key, known[key], objs))
+            if norm_key(key) in known:
+                known_hit.append((key, known[norm_key(key)], objs))
             else:
                 violations.append((key, objs))
         os.makedirs(os.path.join(EVDIR, "replay"), exist_ok=True)
@@ -122,6 +124,15 @@ class Check:
         print("%s [%s]: %d obligations, %d discharged, %d known finding(s), %d violation(s), %.1fs" % (
             self.pid, self.tier, n_obl, n_ok, len(known_hit), len(violations), time.time() - self.t0))
         return 1 if violations else 0
+
+
+_MODPATH = re.compile(r"(?<![A-Za-z0-9_])(?:[a-z_][a-z0-9_]*::)+(?=[A-Z<])")
+
+
+def norm_key(k):
+    """violation key with module paths dropped in front of type names: price_level::level::PriceLevel::match_order ->
+    PriceLevel::match_order"""
+    return _MODPATH.sub("", k)
 
 
 class Relabel:
